@@ -297,6 +297,7 @@ type hijack struct {
 	later    []string
 	asyncSent int
 	failAt, failKind, failed int
+	failTxn                  *txnSpec
 	fakeSt   map[uint64]*kvrpcpb.CheckTxnStatusResponse
 	checks   map[uint64]int
 }
@@ -378,7 +379,21 @@ func (hj *hijack) pre(req *tikvrpc.Request) (*tikvrpc.Response, error) {
 	case tikvrpc.CmdGet, tikvrpc.CmdBatchGet, tikvrpc.CmdScan:
 		hj.mu.Lock()
 		// fault class: the failAt-th point read RPC from now on fails non-retryably
-		if hj.failAt > 0 && req.Type != tikvrpc.CmdScan {
+		if hj.failAt > 0 && hj.failKind == 2 {
+			// fault class: the failAt-th BatchGet RPC is answered with a response-level lock error (no pairs)
+			// naming a lock of an already finished transaction of the history; the retry goes through
+			if req.Type == tikvrpc.CmdBatchGet && len(req.BatchGet().Keys) > 0 {
+				hj.failAt--
+				if hj.failAt == 0 {
+					t := hj.failTxn
+					hj.failed++
+					hj.mu.Unlock()
+					li := &kvrpcpb.LockInfo{Key: req.BatchGet().Keys[0], PrimaryLock: t.keys[0], LockVersion: t.start,
+						LockTtl: 1, TxnSize: uint64(len(t.keys)), LockType: kvrpcpb.Op_Put}
+					return &tikvrpc.Response{Resp: &kvrpcpb.BatchGetResponse{Error: &kvrpcpb.KeyError{Locked: li}}}, nil
+				}
+			}
+		} else if hj.failAt > 0 && req.Type != tikvrpc.CmdScan {
 			hj.failAt--
 			if hj.failAt == 0 {
 				kind := hj.failKind
@@ -439,6 +454,24 @@ func (hj *hijack) arm(n, kind int) {
 	hj.mu.Lock()
 	hj.failAt, hj.failKind = n, kind
 	hj.mu.Unlock()
+}
+
+// armLockAnswer: the n-th BatchGet RPC from now gets a whole-batch lock answer; false if the history has
+// no finished transaction to name
+func (hj *hijack) armLockAnswer(n int, r *rand.Rand, ts uint64) bool {
+	var fin []*txnSpec
+	for i := range hj.env.h.txns {
+		if t := &hj.env.h.txns[i]; (t.kind == kCommitted || t.kind == kRolledBack) && t.start <= ts { // a store never reports a later lock
+			fin = append(fin, t)
+		}
+	}
+	if len(fin) == 0 {
+		return false
+	}
+	hj.mu.Lock()
+	hj.failAt, hj.failKind, hj.failTxn = n, 2, fin[r.Intn(len(fin))]
+	hj.mu.Unlock()
+	return true
 }
 
 func (hj *hijack) send(ctx context.Context, addr string, req *tikvrpc.Request, timeout time.Duration) (*tikvrpc.Response, error) {
@@ -937,6 +970,36 @@ func (e *env) reads(tier string) []string {
 		bgetL("after-fault-sub", sf, h.ts1, pick(r, 1+r.Intn(len(allKeys)), allKeys))
 	}
 	e.scanCase(&lines, "after-fault", h.ts1, nil, nil, batchSizes[r.Intn(4)], false, false, false)
+	// fault class: a BatchGet RPC is answered with a response-level lock error (TiKV does so when the
+	// whole batch hits e.g. an in-memory lock): no pairs, one lock named; the retry must re-read ALL keys of
+	// the batch.  Synchronous and asynchronous API, batches of 1..n keys, cold and partly warm cache.
+	for round := 0; round < 4; round++ {
+		asyncMode := round%2 == 1
+		restore := config.UpdateGlobal(func(c *config.Config) { c.EnableAsyncBatchGet = asyncMode })
+		label := "lockans-sync"
+		if asyncMode {
+			label = "lockans-async"
+		}
+		sl := e.store.GetSnapshot(h.ts1)
+		if round >= 2 {
+			for _, k := range pick(r, 1+r.Intn(3), allKeys) {
+				getL("lockans-warmup", sl, h.ts1, k)
+			}
+		}
+		ks := allKeys
+		if r.Intn(3) == 0 {
+			ks = pick(r, 1+r.Intn(len(allKeys)), allKeys)
+		}
+		if e.hj.armLockAnswer(1+r.Intn(2), r, h.ts1) {
+			bgetL(label, sl, h.ts1, ks)
+			e.hj.arm(0, 0)
+			for _, k := range allKeys {
+				getL("after-"+label, sl, h.ts1, k)
+			}
+			bgetL("after-"+label, sl, h.ts1, allKeys)
+		}
+		restore()
+	}
 	// a cache program: gets / batch gets / SetSnapshotTS / failing calls interleaved on one snapshot
 	{
 		sc := e.store.GetSnapshot(h.ts1)
